@@ -423,6 +423,15 @@ func (s *Stream) fillDataToReadBuffer(buf bufferSliceWrapper) error {
 		// callback OnData maybe block, make sure OnData called once and chan recvNotifyCh be notified
 		if atomic.CompareAndSwapUint32(&s.callbackInProcess, 0, 1) {
 			s.asyncGoroutineWg.Add(1)
+			// the stream could be closed after the check above: close() only waits for the goroutines registered before
+			// its asyncGoroutineWg.Wait(), a goroutine started now would move data into recvBuf while clean() recycles it.
+			if s.getStreamState() == uint32(streamClosed) {
+				atomic.StoreUint32(&s.callbackInProcess, 0)
+				s.asyncGoroutineWg.Done()
+				s.pendingData.clear()
+				s.recvBuf.recycle()
+				return nil
+			}
 			gopool.Go(func() {
 				for {
 					s.pendingData.moveTo(s.recvBuf)
